@@ -9,6 +9,7 @@ import (
 	"errors"
 	"fmt"
 	"reflect"
+	"sync/atomic"
 
 	"github.com/jhump/protoreflect/dynamic"
 	"google.golang.org/grpc/encoding"
@@ -167,7 +168,10 @@ func goodCopy(out, in interface{}) error {
 	return out.(*dynamic.Message).Unmarshal(b) // resets first
 }
 
-var clonerNames = []string{"default", "CodecCloner", "CloneFunc", "CopyFunc"}
+// A configuration whose user-supplied part comes in variants (userfn.go) is
+// listed once per variant: "X" uses the fresh-allocating function / codec, "X/reuse"
+// the one that keeps the storage of the destination it is handed.
+var clonerNames = []string{"default", "CodecCloner", "CloneFunc", "CopyFunc", "CopyFunc/reuse", "CodecCloner/reuse"}
 
 // mkCloner: nil means "no cloner configured" (the channel's default).
 func mkCloner(name string) inprocgrpc.Cloner {
@@ -184,6 +188,14 @@ func mkCloner(name string) inprocgrpc.Cloner {
 		return inprocgrpc.CloneFunc(goodClone)
 	case "CopyFunc":
 		return inprocgrpc.CopyFunc(goodCopy)
+	case "CopyFunc/reuse":
+		return inprocgrpc.CopyFunc(reuseCopy)
+	case "CodecCloner/reuse":
+		c := encoding.GetCodec("proto")
+		if c == nil {
+			panic("no proto codec registered")
+		}
+		return inprocgrpc.CodecCloner(reuseCodec{c})
 	}
 	panic("unknown cloner " + name)
 }
@@ -377,20 +389,63 @@ func selfCheck() []string {
 			if sh, _ := disjoint(src, c); len(sh) > 0 {
 				problems = append(problems, fmt.Sprintf("%s[%s]: reference clone shares memory: %v", s.Name, rep, sh))
 			}
-			for _, drep := range []string{"gen", "dyn"} {
-				for _, f := range fillers(s.Type, s, false) {
-					src := s.instance(rep)
-					dst := f.instance(drep)
-					if err := goodCopy(dst, src); err != nil || !bytes.Equal(mustCanon(dst), snap) {
-						problems = append(problems, fmt.Sprintf("%s[%s] -> [%s] filled with %s: reference copy wrong (%v)", s.Name, rep, drep, f.Name, err))
-						continue
-					}
-					if sh, _ := disjoint(src, dst); len(sh) > 0 {
-						problems = append(problems, fmt.Sprintf("%s[%s] -> [%s]: reference copy shares memory: %v", s.Name, rep, drep, sh))
+			for _, cv := range copyVariants() {
+				for _, drep := range []string{"gen", "dyn"} {
+					for _, f := range fillers(s.Type, s, false) {
+						src := s.instance(rep)
+						dst := f.instance(drep)
+						if err := cv.fn(dst, src); err != nil || !bytes.Equal(mustCanon(dst), snap) || !bytes.Equal(mustCanon(src), snap) {
+							problems = append(problems, fmt.Sprintf("%s[%s] -> [%s] filled with %s: %s wrong (%v)", s.Name, rep, drep, f.Name, cv.name, err))
+							continue
+						}
+						if addr := sharedAddress(src, dst); addr != "" {
+							problems = append(problems, fmt.Sprintf("%s[%s] -> [%s]: %s shares memory: %s", s.Name, rep, drep, cv.name, addr))
+						}
+						if sh, _ := disjoint(src, dst); len(sh) > 0 {
+							problems = append(problems, fmt.Sprintf("%s[%s] -> [%s]: %s shares memory: %v", s.Name, rep, drep, cv.name, sh))
+						}
 					}
 				}
 			}
 		}
+		// what makes the reuse variants a dimension of their own: handed a
+		// destination that is NOT an object of its own (a shallow copy of the
+		// source) they do not produce an independent copy, for every message
+		// that has something to share, whereas the fresh ones do
+		if hasRefContent(s.build()) {
+			for _, cv := range copyVariants() {
+				src := s.instance("gen")
+				snap := mustCanon(src)
+				dst := shallow(src)
+				err := cv.fn(dst, src)
+				independent := err == nil && bytes.Equal(mustCanon(dst), snap) && bytes.Equal(mustCanon(src), snap) && sharedAddress(src, dst) == ""
+				if independent {
+					sh, _ := disjoint(src, dst)
+					independent = len(sh) == 0
+				}
+				if want := cv.name == "fresh copy function"; independent != want {
+					problems = append(problems, fmt.Sprintf("%s: %s into a destination aliasing the source: independent copy=%v, expected %v", s.Name, cv.name, independent, want))
+				}
+			}
+		}
+	}
+	before := atomic.LoadInt64(&reuseRetained)
+	for _, cv := range copyVariants()[1:] {
+		src, dst := specByName["msg-full"].instance("gen"), specByName["msg-filler"].instance("gen")
+		had := addresses(dst)
+		_ = cv.fn(dst, src)
+		kept := 0
+		for a := range addresses(dst) {
+			if _, ok := had[a]; ok {
+				kept++
+			}
+		}
+		if kept == 0 {
+			problems = append(problems, cv.name+": kept none of the destination's storage (msg-full into msg-filler)")
+		}
+	}
+	if atomic.LoadInt64(&reuseRetained) == before {
+		problems = append(problems, "the reuse functions do not count the storage they keep")
 	}
 	return problems
 }
